@@ -27,22 +27,29 @@ func fdecl(name string, body *ir.Node) *ir.Node {
 // original tree; `VERIF_DUMP=1 go test -run TestWitnessJSON` prints them in
 // the JSON form used by known_findings.json.
 var namedWitnesses = map[string]interface{}{
-	"C02/return-linebreak":           c02Case{Tree: prog(fdecl("f", blk(ir.N(ir.Return, "", nil), es(id("a"))))), Srcs: []string{"function f(){return\na}"}},
-	"C02/linebreak-incdec":           c02Case{Tree: prog(es(id("a")), es(ir.N(ir.Unary, "++", id("b")))), Srcs: []string{"a\n++b"}},
-	"C02/template-backslash":         c02Case{Tree: prog(ir.N(ir.Let, "a", ir.N(ir.Tpl, "\\\\")), es(id("a"))), Srcs: []string{"let a=`\\\\`;a;"}},
-	"C10/eof-drift":                  c10Case{Src: []byte("")},
-	"C10/two-char-start":             c10Case{Src: []byte("a==b")},
-	"C10/nul-is-eof":                 c10Case{Src: []byte("x\x00y")},
-	"C11/typed-nil-stmt":             c11Case{Src: []byte("let")},
-	"C03/sign-fusion":                c03Case{Tree: prog(es(ir.N(ir.Binary, "-", id("a"), ir.N(ir.Unary, "-", id("b")))))},
-	"C03/stmt-start-literal":         c03Case{Tree: prog(es(ir.N(ir.Object, "")))},
-	"C03/printer-paren-indent":       c03Case{Tree: prog(ir.N(ir.Let, "a", ir.N(ir.Binary, "||", id("a"), ir.N(ir.Binary, "||", id("a"), &ir.Node{K: ir.Func, Params: []string{}, Kids: []*ir.Node{blk()}}))))},
-	"C06/nosemi-hazard":              c06Case{Src: "a;(b)\nif (a) b; else c"},
-	"C06/template-trailing-space":    c06Case{Src: "let s = `a  \n  b`;"},
-	"C01/integer-member":             c01Case{Src: "print(1 .toString())"},
-	"C07/string-requote":             c07Case{Lits: []c07Lit{{Src: "'say \"hi\"'"}, {Src: "'\\x22'"}, {Src: "'\\x5C'"}, {Src: "'\\x0A'"}, {Src: "'\\xE9'"}, {Src: "'\\uD83D'"}}},
-	"C05/level1-infix-never-applied": c05Case{Ops: []c05Op{{Lexeme: "@", Role: "infix", Level: 1}}, Toks: []string{"x", "@", "y"}},
-	"C07/escaped-digit":              c07Case{Lits: []c07Lit{{Src: "\"\\0\\u{30}\""}}},
+	"C02/return-linebreak":                        c02Case{Tree: prog(fdecl("f", blk(ir.N(ir.Return, "", nil), es(id("a"))))), Srcs: []string{"function f(){return\na}"}},
+	"C02/linebreak-incdec":                        c02Case{Tree: prog(es(id("a")), es(ir.N(ir.Unary, "++", id("b")))), Srcs: []string{"a\n++b"}},
+	"C02/template-backslash":                      c02Case{Tree: prog(ir.N(ir.Let, "a", ir.N(ir.Tpl, "\\\\")), es(id("a"))), Srcs: []string{"let a=`\\\\`;a;"}},
+	"C10/eof-drift":                               c10Case{Src: []byte("")},
+	"C10/two-char-start":                          c10Case{Src: []byte("a==b")},
+	"C10/nul-is-eof":                              c10Case{Src: []byte("x\x00y")},
+	"C11/typed-nil-stmt":                          c11Case{Src: []byte("let")},
+	"C03/sign-fusion":                             c03Case{Tree: prog(es(ir.N(ir.Binary, "-", id("a"), ir.N(ir.Unary, "-", id("b")))))},
+	"C03/stmt-start-literal":                      c03Case{Tree: prog(es(ir.N(ir.Object, "")))},
+	"C03/printer-paren-indent":                    c03Case{Tree: prog(ir.N(ir.Let, "a", ir.N(ir.Binary, "||", id("a"), ir.N(ir.Binary, "||", id("a"), &ir.Node{K: ir.Func, Params: []string{}, Kids: []*ir.Node{blk()}}))))},
+	"C06/nosemi-hazard":                           c06Case{Src: "a;(b)\nif (a) b; else c"},
+	"C06/template-trailing-space":                 c06Case{Src: "let s = `a  \n  b`;"},
+	"C01/integer-member":                          c01Case{Src: "print(1 .toString())"},
+	"C07/string-requote":                          c07Case{Lits: []c07Lit{{Src: "'say \"hi\"'"}, {Src: "'\\x22'"}, {Src: "'\\x5C'"}, {Src: "'\\x0A'"}, {Src: "'\\xE9'"}, {Src: "'\\uD83D'"}}},
+	"C05/level1-infix-never-applied":              c05Case{Ops: []c05Op{{Lexeme: "@", Role: "infix", Level: 1}}, Toks: []string{"x", "@", "y"}},
+	"C08/pretty-map-positions":                    c08Case{Src: "\n// c\nlet a = b == c\nfoo(a, b)"},
+	"C12/unterminated-literal":                    c12Of("", "", "let", " stmt", " ", "a", "", "", "=", "", "", "\"\"", "str", "", ";", "term"),
+	"C12/invalid-target-accepted":                 c12Of("delete#2", "", "a", " stmt", "", "||", "", "", "a", "", "", "++", "", "", "", "term", "\n", "0", " stmt", "", "", "term"),
+	"C12/postfix-result-continued":                c12Of("delete#2", "", "a", " stmt", "", "++", "", "", ";", "term", "", "(", " open stmt", "", "a", "", "", ")", " close", "", ";", "term"),
+	"C12/non-identifier-member-property-accepted": c12Of("delete#2", "", "a", " stmt", "", ".", "", "", "b", "", "", "(", " open", "", "c", "", "", ")", " close", "", ";", "term"),
+	"C12/return-outside-function-accepted":        c12Of("delete#0", "", "function", " stmt", " ", "a", "", "", "(", " open", "", ")", " close", "\n", "{", " open", "", "return", " stmt", "", ";", "term", "", "}", " close"),
+	"C12/declaration-as-body-accepted":            c12Of("delete#4", "", "while", " stmt", "", "(", " open", "", "a", "", "", ")", " close", "", "a", " stmt", " ", "", "term", "\n", "let", " stmt", " ", "a", "", "", "", "term"),
+	"C07/escaped-digit":                           c07Case{Lits: []c07Lit{{Src: "\"\\0\\u{30}\""}}},
 }
 
 func TestWitnessJSON(t *testing.T) {
